@@ -2258,11 +2258,130 @@ Section Shallow.
 End Shallow.
 
 (* ------------------------------------------------------------------------------------------- *)
+(* a successful lyd_validate_choice_r on new siblings: no two of them lie in different cases     *)
+(* ------------------------------------------------------------------------------------------- *)
+Section CasesFromSuccess.
+  Variable sch : schema.
+  Variable path : list pstep.
+  Variable p : option sid.
+  Variable f : forest.
+  Hypothesis Hnew : all_new f.
+  Hypothesis Hsids : forall n, In n f -> In (d_sid n) (schildren sch p).
+
+  Lemma case_found_new pre c k n : In n f -> in_case sch pre c k n = true -> case_found sch pre c k f = FNew.
+  Proof.
+    intros Hn Hc. unfold case_found.
+    assert (Hin : In n (filter (in_case sch pre c k) f)) by (apply filter_In; split; assumption).
+    assert (E : existsb d_new (filter (in_case sch pre c k) f) = true).
+    { apply existsb_exists. exists n. split; [exact Hin|apply Hnew, Hn]. }
+    rewrite E. reflexivity.
+  Qed.
+
+  Lemma cases_scan_some_new pre c : forall ks old k0 k, In k ks -> case_found sch pre c k f = FNew ->
+    cases_scan sch pre c f ks old (Some k0) = Err E_VALID.
+  Proof.
+    induction ks as [|k' ks IH]; intros old k0 k Hin Hf; [destruct Hin|]. cbn [cases_scan].
+    destruct Hin as [->|Hin]; [rewrite Hf; reflexivity|].
+    destruct (case_found sch pre c k' f); [apply (IH _ _ _ Hin Hf)| |reflexivity].
+    destruct old; [reflexivity|apply (IH _ _ _ Hin Hf)].
+  Qed.
+
+  Lemma cases_scan_two_new pre c : forall ks old new k1 k2, In k1 ks -> In k2 ks -> k1 <> k2 ->
+    case_found sch pre c k1 f = FNew -> case_found sch pre c k2 f = FNew ->
+    cases_scan sch pre c f ks old new = Err E_VALID.
+  Proof.
+    induction ks as [|k ks IH]; intros old new k1 k2 H1 H2 Hne F1 F2; [destruct H1|]. cbn [cases_scan].
+    destruct H1 as [->|H1], H2 as [->|H2].
+    - contradiction.
+    - rewrite F1. destruct new; [reflexivity|apply (cases_scan_some_new pre c ks old k1 k2 H2 F2)].
+    - rewrite F2. destruct new; [reflexivity|apply (cases_scan_some_new pre c ks old k2 k1 H1 F1)].
+    - destruct (case_found sch pre c k f).
+      + apply (IH _ _ _ _ H1 H2 Hne F1 F2).
+      + destruct old; [reflexivity|apply (IH _ _ _ _ H1 H2 Hne F1 F2)].
+      + destruct new; [reflexivity|apply (IH _ _ _ _ H1 H2 Hne F1 F2)].
+  Qed.
+
+  Lemma in_cases_of s l0 x l1 : In s (schildren sch p) -> chainf sch s = l0 ++ x :: l1 ->
+    In (ch_case x) (cases_of sch p (map cc_of l0) (ch_id x)).
+  Proof.
+    intros Hs Hc. unfold cases_of. apply In_nodupN. apply filter_map_In. exists s. split; [exact Hs|].
+    unfold s_case. rewrite Hc, next_chc_app, N.eqb_refl. reflexivity.
+  Qed.
+
+  Lemma fold_res_const {A S} (g : S -> A -> res S) (l : list A) (st r : S) :
+    (forall x r', In x l -> g st x = Ok r' -> r' = st) -> fold_res g l st = Ok r ->
+    forall c, In c l -> exists r', g st c = Ok r'.
+  Proof.
+    induction l as [|x l IH]; intros Hid H c Hc; [destruct Hc|]. cbn [fold_res] in H.
+    apply bind_ok in H. destruct H as [a [Ha H]].
+    pose proof (Hid x a (or_introl eq_refl) Ha) as E. subst a.
+    destruct Hc as [->|Hc]; [exists st; exact Ha|].
+    apply (IH (fun y r' Hy => Hid y r' (or_intror Hy)) H c Hc).
+  Qed.
+
+  (* two nodes in different cases of a choice: the traversal reaches that choice and fails *)
+  Lemma choice_r_conflict a b : In a f -> In b f ->
+    forall fuel l1 l1' l0 l0' xa ra xb rb acc r,
+    chainf sch (d_sid a) = l0 ++ l1 ++ xa :: ra -> chainf sch (d_sid b) = l0' ++ l1' ++ xb :: rb ->
+    map cc_of l0 = map cc_of l0' -> map cc_of l1 = map cc_of l1' -> ch_id xa = ch_id xb -> ch_case xa <> ch_case xb ->
+    choice_r fuel sch path p (map cc_of l0) (f, acc) = Ok r -> False.
+  Proof.
+    intros Ha Hb. induction fuel as [|fuel IH]; intros l1 l1' l0 l0' xa ra xb rb acc r Hca Hcb Hm Hm1 Hid Hne H; cbn [choice_r] in H; [discriminate|].
+    assert (Hstep : forall c r', bind (validate_cases sch path p (map cc_of l0) c (fst (f, acc))) (fun r0 =>
+                      fold_res (fun st' k => choice_r fuel sch path p (map cc_of l0 ++ [(c, k)]) st')
+                               (cases_of sch p (map cc_of l0) c) (fst r0, snd (f, acc) ++ snd r0)) = Ok r' -> r' = (f, acc)).
+    { intros c r' Hc. apply bind_ok in Hc. destruct Hc as [a0 [Ha0 Hc]].
+      apply (validate_cases_allnew sch path p _ c f a0 Hnew) in Ha0. subst a0. cbn [fst snd] in Hc. rewrite app_nil_r in Hc.
+      apply (fold_res_id _ _ _ _) in Hc; [exact Hc|]. intros k r'' _ Hk. apply (choice_r_allnew sch path p fuel _ (f, acc) r'' Hnew Hk). }
+    destruct l1 as [|y l1], l1' as [|y' l1']; cbn [map] in Hm1; try discriminate; cbn [app] in Hca, Hcb.
+    - (* the choice of the conflict is at this level *)
+      destruct (fold_res_const _ _ _ _ (fun c r' _ Hc => Hstep c r' Hc) H (ch_id xa)
+                  (in_choices_at sch p _ l0 xa ra (Hsids a Ha) Hca)) as [r' Hr'].
+      apply bind_ok in Hr'. destruct Hr' as [a0 [Ha0 _]]. cbn [fst] in Ha0.
+      unfold validate_cases in Ha0. apply bind_ok in Ha0. destruct Ha0 as [on [Hscan _]].
+      rewrite (cases_scan_two_new (map cc_of l0) (ch_id xa) _ None None (ch_case xa) (ch_case xb)) in Hscan; [discriminate| | |exact Hne| |].
+      + apply (in_cases_of _ l0 xa ra (Hsids a Ha) Hca).
+      + rewrite Hid, Hm. apply (in_cases_of _ l0' xb rb (Hsids b Hb) Hcb).
+      + apply (case_found_new _ _ _ a Ha). unfold in_case, n_case, s_case. rewrite Hca, next_chc_app, !N.eqb_refl. reflexivity.
+      + apply (case_found_new _ _ _ b Hb). unfold in_case, n_case, s_case. rewrite Hcb, Hm, next_chc_app, Hid, !N.eqb_refl. reflexivity.
+    - (* go down into the case of y *)
+      assert (Ey : cc_of y = cc_of y') by congruence. assert (Em1 : map cc_of l1 = map cc_of l1') by congruence.
+      destruct (fold_res_const _ _ _ _ (fun c r' _ Hc => Hstep c r' Hc) H (ch_id y)
+                  (in_choices_at sch p _ l0 y _ (Hsids a Ha) Hca)) as [r' Hr'].
+      apply bind_ok in Hr'. destruct Hr' as [a0 [Ha0 Hr']]. cbn [fst snd] in Ha0, Hr'.
+      apply (validate_cases_allnew sch path p _ _ f a0 Hnew) in Ha0. subst a0. cbn [fst snd] in Hr'. rewrite app_nil_r in Hr'.
+      destruct (fold_res_const _ _ _ _ (fun k r'' _ Hk => choice_r_allnew sch path p fuel _ (f, acc) r'' Hnew Hk) Hr' (ch_case y)
+                  (in_cases_of _ l0 y _ (Hsids a Ha) Hca)) as [r'' Hr''].
+      assert (Em : map cc_of l0 ++ [(ch_id y, ch_case y)] = map cc_of (l0 ++ [y])) by (rewrite map_app; reflexivity).
+      rewrite Em in Hr''.
+      apply (IH l1 l1' (l0 ++ [y]) (l0' ++ [y']) xa ra xb rb acc r''); try assumption.
+      + rewrite <- app_assoc. exact Hca.
+      + rewrite <- app_assoc. exact Hcb.
+      + rewrite !map_app, Hm. cbn [map]. rewrite Ey. reflexivity.
+  Qed.
+
+  Lemma choice_r_cases_ok acc r : choice_r (cfuel sch) sch path p [] (f, acc) = Ok r -> cases_okb sch f = true.
+  Proof.
+    intro H. unfold cases_okb. apply forallb_forall. intros a Ha. apply forallb_forall. intros b Hb.
+    apply negb_true_iff. destruct (chain_conflict (chainf sch (d_sid a)) (chainf sch (d_sid b))) eqn:Ec; [exfalso|reflexivity].
+    destruct (chain_conflict_inv _ _ Ec) as [la [xa [ra [lb [xb [rb [Hca [Hcb [Hm [Hi Hne]]]]]]]]]].
+    apply (choice_r_conflict a b Ha Hb (cfuel sch) la lb [] [] xa ra xb rb acc r Hca Hcb eq_refl Hm Hi Hne H).
+  Qed.
+End CasesFromSuccess.
+
+Lemma vnew_cases_ok sch path p f r :
+  all_new f -> (forall n, In n f -> In (d_sid n) (schildren sch p)) -> vnew sch path p f = Ok r -> cases_okb sch f = true.
+Proof.
+  intros Hn Hs H. unfold vnew in H. apply bind_ok in H. destruct H as [st [Hc _]].
+  apply (choice_r_cases_ok sch path p f Hn Hs [] st Hc).
+Qed.
+
+(* ------------------------------------------------------------------------------------------- *)
 (* freshly parsed data: validation reaches the normal form                                       *)
 (* ------------------------------------------------------------------------------------------- *)
 Lemma fresh_node_unfold sch s v d m ch :
   fresh_node sch (DN s v d m ch) =
-  d_new (DN s v d m ch) && negb d && (if is_np_cont sch s then negb (is_nil ch) else true) && cases_okb sch ch &&
+  d_new (DN s v d m ch) && negb d && (if is_np_cont sch s then negb (is_nil ch) else true) &&
   forallb (fresh_node sch) ch.
 Proof. reflexivity. Qed.
 
@@ -2345,13 +2464,13 @@ Section LevelFresh.
   Hypothesis Hk : chc_okb sch = true.
 
   Lemma level_fresh : forall fuel path p f r,
-    CanonAt sch p f -> cases_okb sch f = true -> forallb (fresh_node sch) f = true ->
+    CanonAt sch p f -> forallb (fresh_node sch) f = true ->
     level fuel true false sch path p f = Ok r ->
     norm_level sch p (fst r) = true /\ forallb (normal_node sch) (fst r) = true /\
     (f <> [] -> existsb expl (fst r) = true) /\ (f = [] -> forallb d_dflt (fst r) = true) /\
     strip (fst r) = strip f.
   Proof.
-    induction fuel as [|fuel IH]; intros path p f r Hcan Hcases Hfresh H; cbn [level] in H; [discriminate|].
+    induction fuel as [|fuel IH]; intros path p f r Hcan Hfresh H; cbn [level] in H; [discriminate|].
     apply bind_ok in H. destruct H as [st1 [H1 H]]. apply bind_ok in H. destruct H as [st2 [H2 H]].
     rewrite forallb_forall in Hfresh.
     assert (Hnew : all_new f).
@@ -2360,6 +2479,9 @@ Section LevelFresh.
     assert (Hexp : all_expl f).
     { intros n Hn. specialize (Hfresh n Hn). destruct n as [s v d m ch]. rewrite fresh_node_unfold in Hfresh.
       repeat (apply andb_true_iff in Hfresh; destruct Hfresh as [Hfresh ?]). cbn [d_dflt]. apply negb_true_iff. assumption. }
+    assert (Hcases : cases_okb sch f = true).
+    { apply (vnew_cases_ok sch path p f st1 Hnew); [|exact H1].
+      intros n Hn. apply (canon_sid sch p n). apply (CanonAt_In sch p f n Hcan Hn). }
     apply (vnew_fresh sch path p f st1 Hnew Hexp) in H1. subst st1.
     set (E := map clr_new f) in *.
     assert (HEn : forall n, In n E -> d_new n = false).
@@ -2390,7 +2512,7 @@ Section LevelFresh.
         destruct d.
         * (* created default container: no children before *)
           destruct (i_dflt sch p E (fst st2) HI _ Hn eq_refl) as [_ [_ [_ Hch]]]. cbn [d_ch] in Hch. subst ch.
-          destruct (IH _ _ _ _ (CanonAt_nil sch (Some s)) eq_refl eq_refl Hc) as [A [B [_ [D _]]]].
+          destruct (IH _ _ _ _ (CanonAt_nil sch (Some s)) eq_refl Hc) as [A [B [_ [D _]]]].
           rewrite A, B, (D eq_refl). destruct (is_np_cont sch s); reflexivity.
         * (* explicit node: from the input *)
           assert (HnE : In (DN s v false m ch) E).
@@ -2398,10 +2520,10 @@ Section LevelFresh.
           apply in_map_iff in HnE. destruct HnE as [n0 [En0 Hn0]].
           pose proof (Hfresh n0 Hn0) as Hf0. destruct n0 as [s0 v0 d0 m0 ch0]. cbn [clr_new] in En0. inversion En0; subst s0 v0 d0 ch0.
           rewrite fresh_node_unfold in Hf0.
-          apply andb_true_iff in Hf0. destruct Hf0 as [Hf0 Hf5]. apply andb_true_iff in Hf0. destruct Hf0 as [Hf0 Hf4].
+          apply andb_true_iff in Hf0. destruct Hf0 as [Hf0 Hf5].
           apply andb_true_iff in Hf0. destruct Hf0 as [Hf0 Hf3].
           pose proof (CanonAt_children sch p _ (CanonAt_In sch p f _ Hcan Hn0)) as Hcc. cbn [d_sid d_ch] in Hcc.
-          destruct (IH _ _ _ _ Hcc Hf4 Hf5 Hc) as [A [B [C _]]].
+          destruct (IH _ _ _ _ Hcc Hf5 Hc) as [A [B [C _]]].
           rewrite A, B. destruct (is_np_cont sch s); [|reflexivity].
           apply negb_true_iff in Hf3. assert (Hne : ch <> []) by (intro Ee; subst ch; discriminate).
           rewrite (existsb_expl_not_all _ (C Hne)). reflexivity.
@@ -2435,11 +2557,11 @@ Section LevelFresh.
         apply (Forall2_map_eq_in _ strip_node strip_node _ _ HF3).
         intros n0 n' Hn0 Hrel.
         pose proof (Hfresh n0 Hn0) as Hf0. destruct n0 as [s0 v0 d0 m0 ch0]. rewrite fresh_node_unfold in Hf0.
-        apply andb_true_iff in Hf0. destruct Hf0 as [Hf0 Hf5]. apply andb_true_iff in Hf0. destruct Hf0 as [Hf0 Hf4].
+        apply andb_true_iff in Hf0. destruct Hf0 as [Hf0 Hf5].
         cbn [clr_new d_sid d_ch set_ch] in Hrel.
         destruct Hrel as [[Hi [c [Hc ->]]]|[Hi ->]].
         * pose proof (CanonAt_children sch p _ (CanonAt_In sch p f _ Hcan Hn0)) as Hcc. cbn [d_sid d_ch] in Hcc.
-          destruct (IH _ _ _ _ Hcc Hf4 Hf5 Hc) as [_ [_ [_ [_ Hst]]]].
+          destruct (IH _ _ _ _ Hcc Hf5 Hc) as [_ [_ [_ [_ Hst]]]].
           cbn [set_ch]. rewrite !strip_node_unfold, Hst, filter_idem. reflexivity.
         * rewrite !strip_node_unfold, filter_idem. reflexivity.
   Qed.
@@ -2449,10 +2571,10 @@ Theorem validate_fresh_normal sch f g d :
   chc_okb sch = true -> Canon sch f -> freshb sch f = true -> f <> [] ->
   validate_all sch f = Ok (g, d) -> normalb sch g = true /\ strip g = strip f.
 Proof.
-  intros Hk Hc Hf Hne H. unfold freshb in Hf. apply andb_true_iff in Hf. destruct Hf as [Hf1 Hf2].
+  intros Hk Hc Hf2 Hne H. unfold freshb in Hf2.
   unfold validate_all in H. destruct f as [|n0 f0]; [contradiction|].
   apply bind_ok in H. destruct H as [st [Hs H]]. apply bind_ok in H. destruct H as [gg [Hfin H]]. inversion H; subst gg d. clear H.
-  destruct (level_fresh sch Hk _ _ _ _ _ Hc Hf1 Hf2 Hs) as [A [B [_ [_ S]]]].
+  destruct (level_fresh sch Hk _ _ _ _ _ Hc Hf2 Hs) as [A [B [_ [_ S]]]].
   assert (Eg : g = fst st).
   { unfold final_forest in Hfin. apply bind_ok in Hfin. destruct Hfin as [u [_ Hfin]].
     apply (map_res_id (final_node sch)); [|exact Hfin].
